@@ -93,6 +93,8 @@ impl Method for SWMA {
 	#[inline]
 	fn next(&mut self, &value: &Self::Input) -> Self::Output {
 		if self.right_window.is_empty() {
+			// window of length 1: the weighted sum is the value itself (keeps `peek` up to date)
+			self.numerator = value;
 			return value;
 		}
 
